@@ -23,6 +23,8 @@ var sentinels = []Call{
 	{Entry: "resolver", Shape: "deep"},
 	{Entry: "export", Shape: "withrefs"},
 	{Entry: "new", Shape: "classes"},
+	{Entry: "script", Shape: "S_async"},
+	{Entry: "script", Shape: "S_iter"},
 }
 
 const maxLimit = 64
@@ -149,7 +151,7 @@ func single(r *core.Run) bool {
 	type job struct{ shape, entry string }
 	var jobs []job
 	for _, s := range allShapes {
-		for _, en := range entries {
+		for _, en := range entriesOf(s.Name) {
 			jobs = append(jobs, job{s.Name, en})
 		}
 	}
@@ -220,7 +222,7 @@ func single(r *core.Run) bool {
 			}
 		}
 	})
-	r.Set("single_call_sweep", fmt.Sprintf("%d shapes x %d entry kinds x (every log position x %d payload kinds + every native position + limits 0..%d)", len(allShapes), len(entries), len(logKinds), maxLimit))
+	r.Set("single_call_sweep", fmt.Sprintf("%d shapes x %d entry kinds x (every log position x %d payload kinds + every native position + limits 0..%d)", len(allShapes)-len(scripts), len(entries), len(logKinds), maxLimit)+fmt.Sprintf(" + %d top-level scripts x the same faults", len(scripts)))
 	return ok
 }
 
